@@ -1,0 +1,68 @@
+//go:build verif
+
+// Contracts for the core keyper gossip handlers, checked by /verif/govc (see /verif/DESIGN.md).
+// This file contains comments only; it adds no code to any build.
+package epochkghandler
+
+//@ const MAXMSG = 1048576
+//@ pred wfShares(m) := m != nil && len(m.Shares) <= MAXMSG && (forall i :: 0 <= i && i < len(m.Shares) ==> m.Shares[i] != nil)
+//@ pred wfResult(r) := r != nil && (forall i :: 0 <= i && i < len(r.PublicKeyShares) ==> r.PublicKeyShares[i] != nil)
+//@
+//@ // one share of the message is well-formed and verifies against the claimed sender's public key share
+//@ pred shareOK(m, r, i) := decodableShare(content(m.Shares[i].Share)) && verShare(decShare(content(m.Shares[i].Share)), r.PublicKeyShares[m.KeyperIndex], h1(content(m.Shares[i].IdentityPreimage))) && (i > 0 ==> !bytesLT(content(m.Shares[i].IdentityPreimage), content(m.Shares[i - 1].IdentityPreimage)))
+//@
+//@ // C04 (shares): accepted iff the claimed sender index exists and every share decodes, verifies against
+//@ // that sender's public key share and identities are non-decreasing.
+//@ func checkKeyShares
+//@   requires wfShares(keyShare) && wfResult(pureDKGResult)
+//@   ensures ret0 == 0 || ret0 == 1
+//@   ensures ret0 == 0 <==> (keyShare.KeyperIndex < len(pureDKGResult.PublicKeyShares) && (forall i :: 0 <= i && i < len(keyShare.Shares) ==> shareOK(keyShare, pureDKGResult, i)))
+//@   invariant forall j :: 0 <= j && j <= rangeindex ==> shareOK(keyShare, pureDKGResult, j)
+//@
+//@ pred wfKeysMsg(m) := m != nil && len(m.Keys) <= MAXMSG && (forall i :: 0 <= i && i < len(m.Keys) ==> m.Keys[i] != nil)
+//@ // one key of the message: decodes, identities non-decreasing, and it either equals the key already
+//@ // stored for (eon, identity) or verifies against the eon public key
+//@ pred keyOK(m, r, i) := decodableKey(content(m.Keys[i].Key)) && (i > 0 ==> !bytesLT(content(m.Keys[i].IdentityPreimage), content(m.Keys[i - 1].IdentityPreimage))) && m.Eon <= 9223372036854775807 && ((dbHasKey(m.Eon, content(m.Keys[i].IdentityPreimage)) && content(m.Keys[i].Key) == dbKey(m.Eon, content(m.Keys[i].IdentityPreimage))) || (!verKeyErr(decKey(content(m.Keys[i].Key)), r.PublicKey, content(m.Keys[i].IdentityPreimage)) && verKey(decKey(content(m.Keys[i].Key)), r.PublicKey, content(m.Keys[i].IdentityPreimage))))
+//@
+//@ // C04 (keys): Accept only if every key decodes, is ordered, and is the valid epoch key under the eon public
+//@ // key or equals the stored one.
+//@ func checkKeysErrors
+//@   requires wfKeysMsg(decryptionKeys) && pureDKGResult != nil && pureDKGResult.PublicKey != nil && queries != nil
+//@   ensures ret0 == 0 || ret0 == 1
+//@   ensures ret0 == 0 ==> (forall i :: 0 <= i && i < len(decryptionKeys.Keys) ==> keyOK(decryptionKeys, pureDKGResult, i))
+//@   invariant forall j :: 0 <= j && j <= rangeindex ==> keyOK(decryptionKeys, pureDKGResult, j)
+//@
+//@ // ---- validators and handlers (C04 accept-only-if direction, C05 panic freedom) -------------------------
+//@ pred sharesMsg(msg) := as(msg, "*p2pmsg.DecryptionKeyShares")
+//@ pred isCoreSharesMsg(msg) := typeis(msg, "*p2pmsg.DecryptionKeyShares") && sharesMsg(msg) != nil && wfShares(sharesMsg(msg))
+//@ func (*DecryptionKeyShareHandler).ValidateMessage
+//@   requires handler != nil && handler.config != nil && isCoreSharesMsg(msg)
+//@   ensures ret0 == 0 || ret0 == 1
+//@   ensures ret0 == 0 ==> isKeyper && dkgResultDB.Success && keyShare.Eon <= 9223372036854775807 && len(keyShare.Shares) >= 1
+//@   ensures ret0 == 0 ==> pureDKGResult != nil && keyShare.KeyperIndex < len(pureDKGResult.PublicKeyShares) && (forall i :: 0 <= i && i < len(keyShare.Shares) ==> shareOK(keyShare, pureDKGResult, i))
+//@ func (*DecryptionKeyShareHandler).HandleMessage
+//@   requires handler != nil && handler.config != nil && isCoreSharesMsg(m)
+//@   opt frame = off
+//@   invariant@2 forall j :: 0 <= j && j < len(keys) ==> keys[j] != nil
+//@   invariant@2 len(keys) <= rangeindex + 1
+//@ func (*DecryptionKeyShareHandler).aggregateDecryptionKeySharesFromDB
+//@   requires handler != nil && wfResult(pureDKGResult) && len(pureDKGResult.PublicKeyShares) == dkgSize(keyperConfigIndex) && pureDKGResult.Threshold >= 1 && pureDKGResult.Threshold <= 1048576
+//@   assigns mapof(map[string][]*epochkg.EpochSecretKeyShare), mapof(map[string]*shcrypto.EpochSecretKey)
+//@   ensures ret1 == nil ==> wfKG(ret0)
+//@   invariant wfKG(epochKG) && len(epochKG.PublicKeyShares) == len(pureDKGResult.PublicKeyShares)
+//@
+//@ pred keysMsg(msg) := as(msg, "*p2pmsg.DecryptionKeys")
+//@ pred isCoreKeysMsg(msg) := typeis(msg, "*p2pmsg.DecryptionKeys") && keysMsg(msg) != nil && wfKeysMsg(keysMsg(msg))
+//@ func (*DecryptionKeyHandler).ValidateMessage
+//@   requires handler != nil && handler.config != nil && isCoreKeysMsg(msg)
+//@   ensures ret0 == 0 || ret0 == 1
+//@   ensures ret0 == 0 ==> isKeyper && dkgResultDB.Success && len(decryptionKeys.Keys) >= 1
+//@   ensures ret0 == 0 ==> pureDKGResult != nil && (forall i :: 0 <= i && i < len(decryptionKeys.Keys) ==> keyOK(decryptionKeys, pureDKGResult, i))
+//@ func (*DecryptionKeyHandler).HandleMessage
+//@   requires handler != nil && isCoreKeysMsg(msg)
+//@
+//@ func (*EonPublicKeyHandler).ValidateMessage
+//@   requires handler != nil && handler.config != nil && typeis(msg, "*p2pmsg.EonPublicKey") && as(msg, "*p2pmsg.EonPublicKey") != nil
+//@   ensures ret0 == 0 || ret0 == 1
+//@ func (*EonPublicKeyHandler).HandleMessage
+//@   ensures ret1 == nil
